@@ -1744,6 +1744,10 @@ static char *demangle_simple(char *str)
 		}
 	}
 
+	/* parsed, but nothing to show (e.g. an unnamed type): keep the name */
+	if (dd.new == NULL)
+		return xstrdup(str);
+
 	if (has_prefix) {
 		char *p = NULL;
 
